@@ -80,14 +80,14 @@ func c05Check(cc *run.Case, ns namedStrat, class string, n int, inst strategy.St
 }
 
 func c05(ctx *run.Ctx) {
-	base := baseStrats(ctx, ctx.Pick(3, 12))
+	base := baseStrats(ctx, ctx.Pick(3, 40))
 	var small []namedStrat
 	for _, b := range base {
 		if b.Warm <= 40 {
 			small = append(small, b)
 		}
 	}
-	all := append(append([]namedStrat(nil), base...), compoundStrats(ctx, small, ctx.Pick(10, 40))...)
+	all := append(append([]namedStrat(nil), base...), compoundStrats(ctx, small, ctx.Pick(10, 150))...)
 	for _, row := range reg.SortedStrats() {
 		ctx.Count("cmp:"+row.Name, 0)
 	}
